@@ -18,6 +18,7 @@ import (
 	"github.com/vektra/mockery/v3/config"
 	"github.com/vektra/mockery/v3/internal/stackerr"
 	"github.com/vektra/mockery/v3/template"
+	"github.com/vektra/mockery/v3/template_funcs"
 	"github.com/xeipuuv/gojsonschema"
 	"golang.org/x/mod/modfile"
 	"golang.org/x/tools/go/packages"
@@ -196,10 +197,18 @@ func (g *TemplateGenerator) format(src []byte) ([]byte, error) {
 	return nil, fmt.Errorf("unknown formatter type: %s", g.formatter)
 }
 
-func (g *TemplateGenerator) methodData(ctx context.Context, method *types.Func, ifaceConfig *config.Config) (template.Method, error) {
+func (g *TemplateGenerator) methodData(ctx context.Context, method *types.Func, tparams *types.TypeParamList, ifaceConfig *config.Config) (template.Method, error) {
 	log := zerolog.Ctx(ctx)
 
 	methodScope := g.registry.MethodScope()
+	// The type parameters of the mock are declared in the scope of every one
+	// of its methods (through the receiver): a parameter must not take the
+	// name of one of them.
+	if tparams != nil {
+		for i := 0; i < tparams.Len(); i++ {
+			methodScope.AddName(template_funcs.Exported(tparams.At(i).Obj().Name()))
+		}
+	}
 
 	signature := method.Type().(*types.Signature)
 	params := make([]template.Param, signature.Params().Len())
@@ -418,7 +427,7 @@ func (g *TemplateGenerator) Generate(
 
 		methods := make([]template.Method, iface.NumMethods())
 		for i := 0; i < iface.NumMethods(); i++ {
-			methodData, err := g.methodData(ctx, iface.Method(i), ifaceMock.Config)
+			methodData, err := g.methodData(ctx, iface.Method(i), tparams, ifaceMock.Config)
 			if err != nil {
 				return nil, err
 			}
